@@ -490,25 +490,48 @@ func (s *LinearState) uncacheRules() {
 	s.cacheMu.Unlock()
 }
 
+// remHooks runs the remHook (if any) for every fact, as
+// IndexedState.remHooks does.  Assumes we have the write lock.
+func (s *LinearState) remHooks(ctx *Context) error {
+	if s.remHook != nil {
+		s.withPrivilege(ctx)
+		defer s.withoutPrivilege(ctx)
+		for id := range s.Facts {
+			if err := s.remHook(ctx, s, id); err != nil {
+				Log(ERROR, ctx, "LinearState.Clear", "state", s.Name, "error", err,
+					"id", id, "when", "remHook")
+				return err
+			}
+		}
+	}
+	return nil
+}
+
 func (s *LinearState) Clear(ctx *Context) error {
 	Log(INFO, ctx, "LinearState.Clear", "name", s.Name)
-	_, err := s.store.Clear(ctx, s.Name)
-	// Maybe protect the store (above), too.
 	s.slock(ctx, false)
+	defer s.sunlock(ctx, false)
+	// Like IndexedState: whoever listens (say a cron that has
+	// scheduled some of our rules) should hear about the removals.
+	if err := s.remHooks(ctx); err != nil {
+		return err
+	}
+	_, err := s.store.Clear(ctx, s.Name)
 	s.Facts = make(map[string]RawFact)
 	s.uncacheRules()
-	s.sunlock(ctx, false)
 	return err
 }
 
 func (s *LinearState) Delete(ctx *Context) error {
 	Log(DEBUG, ctx, "LinearState.Delete", "name", s.Name)
-	err := s.store.Delete(ctx, s.Name)
-	// Maybe protect the store (above), too.
 	s.slock(ctx, false)
+	defer s.sunlock(ctx, false)
+	if err := s.remHooks(ctx); err != nil {
+		return err
+	}
+	err := s.store.Delete(ctx, s.Name)
 	s.Facts = make(map[string]RawFact)
 	s.uncacheRules()
-	s.sunlock(ctx, false)
 	return err
 }
 
